@@ -172,6 +172,38 @@ pub async fn run_op_h(ldap: &mut Ldap, op: &OpSpec) -> (Ret, Option<HelperRec>) 
     }
 }
 
+/// An adapter of the harness's own: hands `left` next() calls up the chain, then fails (the error of an adapter
+/// must put the stream into the Error state; finish() then still has to release the search).
+#[derive(Clone, Debug)]
+pub struct FailAfter {
+    pub left: u32,
+}
+
+pub const FAIL_AFTER_MSG: &str = "harness adapter: rejected";
+
+#[async_trait::async_trait]
+impl<'a, S, A> LAdapter<'a, S, A> for FailAfter
+where
+    S: AsRef<str> + Send + Sync + 'a,
+    A: AsRef<[S]> + Send + Sync + 'a,
+{
+    async fn start(&mut self, stream: &mut SearchStream<'a, S, A>, base: &str, scope: Scope, filter: &str, attrs: A) -> ldap3::result::Result<()> {
+        stream.start(base, scope, filter, attrs).await
+    }
+
+    async fn next(&mut self, stream: &mut SearchStream<'a, S, A>) -> ldap3::result::Result<Option<ResultEntry>> {
+        if self.left == 0 {
+            return Err(LdapError::AdapterInit(FAIL_AFTER_MSG.into()));
+        }
+        self.left -= 1;
+        stream.next().await
+    }
+
+    async fn finish(&mut self, stream: &mut SearchStream<'a, S, A>) -> LdapResult {
+        stream.finish().await
+    }
+}
+
 pub async fn open_stream(ldap: &mut Ldap, s: &SearchSpec, adapter: Adapter) -> Result<Stream, LdapError> {
     let sc = scope_of(s.scope);
     match adapter {
@@ -186,6 +218,10 @@ pub async fn open_stream(ldap: &mut Ldap, s: &SearchSpec, adapter: Adapter) -> R
         }
         Adapter::PagedEntriesOnly(n) => {
             let v: Vec<Box<dyn LAdapter<'static, String, Vec<String>>>> = vec![Box::new(PagedResults::new(n)), Box::new(EntriesOnly::new())];
+            ldap.streaming_search_with(v, &s.base, sc, &s.filter_str, s.attrs.clone()).await
+        }
+        Adapter::FailAfter(n) => {
+            let v: Vec<Box<dyn LAdapter<'static, String, Vec<String>>>> = vec![Box::new(FailAfter { left: n })];
             ldap.streaming_search_with(v, &s.base, sc, &s.filter_str, s.attrs.clone()).await
         }
     }
@@ -316,6 +352,24 @@ pub async fn run_client(client: usize, script: ClientScript, ldap: Ldap, opts: C
                     }
                     w.ev(EvKind::Return { client, step: ix, token: token.clone(), ret, last_id });
                 });
+            }
+            Step::OpenDropped { token, search, polls } => {
+                let Some(l) = ldap.as_mut() else {
+                    world::ev(EvKind::Return { client, step: ix, token: token.clone(), ret: Ret::Skipped, last_id: 0 });
+                    continue;
+                };
+                world::ev(EvKind::Invoke { client, step: ix, token: token.clone(), what: "open-dropped".into() });
+                let r = Driven::new(open_stream(l, search, Adapter::Direct), Some(*polls), client, ix, false).await;
+                // a call that completed before it could be dropped leaves a stream: it is dropped unfinished
+                let ret = match r {
+                    Some(Ok(s)) => {
+                        drop(s);
+                        Ret::Opened
+                    }
+                    Some(Err(e)) => Ret::Err(err_c(&e)),
+                    None => Ret::Cancelled,
+                };
+                world::ev(EvKind::Return { client, step: ix, token: token.clone(), ret, last_id: 0 });
             }
             Step::Next { slot, cancel_after_polls } => {
                 let tok = format!("next@{slot}");
